@@ -81,7 +81,7 @@ pub fn case(cfg: &Cfg, index: u64) -> FmtCase {
     } else if seed_no < a + b + c {
         (e2::grammar::source(&mut srng, true), "grammar".to_string(), false)
     } else if seed_no >= a + b + c + d {
-        (verbatim_seed(&mut srng), "verbatim".to_string(), false)
+        if seed_no % 2 == 0 { (verbatim_seed(&mut srng), "verbatim".to_string(), false) } else { (textblock_seed(&mut srng), "textblock".to_string(), false) }
     } else {
         // small programs: the observation code of E1 nests continuation thunks, and deep nesting is the known
         // exponential case of the formatter
@@ -204,6 +204,35 @@ pub fn verbatim_seed(rng: &mut Rng) -> String {
         | 7 => format!("@[format({outer})]\nlet t = {{ begin let u = ({v}) that ! k u end }} in\nret t\n"),
         | 8 => format!("let x = {v} in\nlet y = {v} in\n(x, y)\n"),
         | _ => format!("@[format({outer})]\nfn (a : A) =>\n  do b <- ! g ({v});\n  ret (a, b)\n"),
+    }
+}
+
+/// `--|` text blocks attached to `@(literal)` (they are the string the splice denotes: every character of a line after the
+/// marker's blank counts, trailing blanks included) and to `@[doc]`, in several contexts and under width-changing directives.
+pub fn textblock_seed(rng: &mut Rng) -> String {
+    const LINES: &[&str] = &[
+        "plain", "key:   ", "ends with tab\t", "  indented", "", " ", "é λ 🙂", "\u{00A0}nbsp first", "trailing nbsp\u{00A0}", "-- dashes", "/- not a comment -/", "\"quoted\"",
+        "back\\slash", "a  b   c", "very long line very long line very long line very long line very long line very long line",
+    ];
+    let block = |rng: &mut Rng, indent: &str| -> String {
+        let n = 1 + rng.below(4);
+        (0..n)
+            .map(|_| {
+                let l = *rng.pick(LINES);
+                if l.is_empty() { format!("{indent}--|\n") } else { format!("{indent}--| {l}\n") }
+            })
+            .collect()
+    };
+    let outer = *rng.pick(&["width(72)", "width(20)", "width(1)", "width(200)", "indent(4)", "layout(ignore)", "layout(preserve)", "width(30), indent(1)"]);
+    let directive = if rng.chance(2, 3) { format!("@[format({outer})]\n") } else { String::new() };
+    match rng.below(7) {
+        | 0 => format!("{directive}let message : String =\n{}    @(literal)\nin\n(message, f message)\n", block(rng, "    ")),
+        | 1 => format!("{directive}begin\n  let m =\n{}    @(literal)\n  that\n  let n =\n{}    @(literal)\n  that\n  (m, n)\nend\n", block(rng, "    "), block(rng, "    ")),
+        | 2 => format!("{directive}f (\n{}  @(literal)\n) y\n", block(rng, "  ")),
+        | 3 => format!("{directive}(a,\n  @[format(width(24))] g (\n{}    @(literal)\n  ) x)\n", block(rng, "    ")),
+        | 4 => format!("{directive}{}@[doc] let x = 1 in\n{}@[doc] let y = 2 in\n(x, y)\n", block(rng, ""), block(rng, "")),
+        | 5 => format!("{directive}fn (a : A) =>\n  do s <- ret (\n{}    @(literal)\n  );\n  ! k s {{\n{}    @(literal) }}\n", block(rng, "    "), block(rng, "    ")),
+        | _ => format!("{directive}let t = {{\n{}  @[doc] ret 1\n}} in\n{}@(literal)\n", block(rng, "  "), block(rng, "")),
     }
 }
 
